@@ -3,6 +3,7 @@ package graph
 import (
 	"context"
 	"strconv"
+	"strings"
 	"time"
 
 	openfgav1 "github.com/openfga/api/proto/openfga/v1"
@@ -83,6 +84,17 @@ func VerifE01Check() {
 	vtsem.StarSecondID = vt.ParamInt("starid", 0) == 1
 	vtsem.LowFirstID = vt.ParamInt("lowid", 0) == 1
 	u := vtsem.NewUniverse(m, vt.ParamInt("nobj", 2), vt.ParamInt("invalid", 1) == 1)
+	if ot := vt.Param("onlytype", ""); ot != "" {
+		// keep the candidate tuples on objects of one type (with three objects per type the whole universe of a
+		// recursive relation then fits the candidate bound)
+		var keep []vtsem.Cand
+		for _, c := range u.Cands {
+			if strings.HasPrefix(c.Key.GetObject(), ot+":") {
+				keep = append(keep, c)
+			}
+		}
+		u.Cands = keep
+	}
 	u.Restrict(vt.ParamInt("maxcands", 12), vt.ParamInt("seed", 0))
 	st := vtsem.NewSymbolicStore(u)
 	if vt.ParamInt("noerr", 0) == 1 {
@@ -94,6 +106,15 @@ func VerifE01Check() {
 	}
 	reqs := verifRequests(u, vt.Param("subjects", "all"))
 	ri := vt.ParamInt("req", -1)
+	if rs := vt.Param("reqstr", ""); rs != "" {
+		// a request pinned by its text (object#relation@user)
+		ri = len(reqs)
+		for i, r := range reqs {
+			if r.obj+"#"+r.rel+"@"+r.user == rs {
+				ri = i
+			}
+		}
+	}
 	if ri < 0 {
 		ri = vt.Choose("req", len(reqs))
 	}
@@ -104,6 +125,11 @@ func VerifE01Check() {
 	rq := reqs[ri]
 	vt.Event("check " + rq.obj + "#" + rq.rel + "@" + rq.user)
 	vt.Event(u.Describe())
+	if n := vt.ParamInt("sched", 0); n > 0 {
+		// the first n selects with several ready cases pick an arbitrary (forked) case instead of the canonical
+		// fair rotation: which of two producer goroutines a resolver hears first is the random choice of a real select
+		vt.SchedChoices(n)
+	}
 
 	ctx := typesystem.ContextWithTypesystem(context.Background(), ts)
 	// C10 ("hc" = 1): the request asks for HIGHER_CONSISTENCY and the reader asserts that every read it serves
